@@ -265,7 +265,7 @@ func (c *Client) packet(ctx context.Context) (proto.ServerCode, error) {
 			zap.Stringer("packet", code),
 		)
 	}
-	if !code.IsAServerCode() {
+	if uint64(code) != n || !code.IsAServerCode() {
 		return 0, errors.Errorf("bad server packet type %d", n)
 	}
 
